@@ -16,6 +16,24 @@ CLAIMED = {
         note=NOTE_COMMON + " pandas Series(set) raising TypeError and dropna semantics are assumed contracts.",
         technique="contract-based deductive verification: VCs generated from the real AST, discharged by z3 (nlsat)",
         design="5/C16"),
+    "C02": dict(
+        text="pc_n, pc (sequences, 1-3 column tables, legacy tuple form; one- and two-sample), pc_joint (1-4 columns, any column "
+             "subset, both gap tokens), ensure_numpy and convert_tuple_to_dataframe_if_necessary are verified path by path against "
+             "post-conditions stating result = (#ordered coinciding pairs)/(N(N-1)) resp. (#coinciding cross pairs)/(N1 N2), range "
+             "[0,1], row serialisation injective when no cell contains the join character, and pc_n(multiplicities) = pc; for all "
+             "row counts and cell contents. Counting facts (L-count, L-coinc-cong) and join injectivity (L-join) are imported lemmas.",
+        note=NOTE_COMMON + " numpy.unique / intersect1d / pandas fillna, apply(axis=1) are assumed contracts; the number of table "
+             "columns is enumerated 1..4 (the property's own range), everything else is symbolic.",
+        technique="contract-based deductive verification: VCs from the real AST (polynomial vector abstraction, counting lemmas), z3 + cvc5",
+        design="5/C02"),
+    "C06": dict(
+        text="varpc_n is proved equal, for all count vectors with N >= 4, to the U-statistic variance estimator (A p3 + B p2 - C p2^2)/(1-C); "
+             "stdpc_n / stdpc to its square root on the multiplicities; and the contracts' closed forms are proved to have expectations "
+             "sum p^2, sum p q and Var(pc) as rational identities in (N, s2, s3) for every N and every distribution at once.",
+        note=NOTE_COMMON + " The multinomial factorial-moment identity and linearity of expectation are ASSUMED axioms about the sampling "
+             "model (bounded exact validation N<=6..8, K=3 reported as a bounded stand-in).",
+        technique="contract-based deductive verification + algebraic lemmas over the contracts' return expressions (z3 nlsat)",
+        design="5/C06"),
 }
 NOT_BUILT = "machinery for this property not built yet (build in progress; see DESIGN.md section 8)"
 
